@@ -71,6 +71,10 @@ class LifeWorld(SctpWorld):
             rec["closes"] += 1
         elif ev == "bufferedamountlow":
             rec["low"] += 1
+            # what the application's handler reads at that moment: the amount has crossed the threshold DOWNWARDS
+            seen = rec["ch"].bufferedAmount
+            if seen > rec["threshold"]:
+                rec["low_stale"] = (seen, rec["threshold"])
         self._note_state(rec)
 
     def _note_state(self, rec):
@@ -190,6 +194,9 @@ class Oracle:
                 if not lo <= amount <= hi:
                     out.append(("buffered/amount", "%s@%s bufferedAmount=%d, bytes accepted and not yet handed to the transport: %d" % (
                         label, side, amount, lo)))
+            if rec.get("low_stale"):
+                out.append(("buffered/amount-in-low-handler", "%s@%s: inside the bufferedamountlow handler bufferedAmount reads %d, above the threshold %d" % (
+                    (label, side) + rec["low_stale"])))
             if not w.reactive.get(side) and rec["low"] != rec["low_expected"]:
                 out.append(("buffered/low-event", "%s@%s: %d bufferedamountlow events, %d downward crossings of threshold %d" % (
                     label, side, rec["low"], rec["low_expected"], rec["threshold"])))
@@ -551,6 +558,8 @@ def run(tier, seed):
     if tier == "quick":
         # id re-use after a close while abandoned data is still being reported (found at k = 2 by the thorough tier)
         deep = [program_name(EXTRA_SCRIPTS[3], "idle", "A", rel) for rel in RELIABILITY if rel != "rel"]
+        # two stream resets by one side with two network faults (a late answer to the first request, the second request lost)
+        deep += [program_name(EXTRA_SCRIPTS[1], "idle", c, "rel") for c in "AB"]
         sb += [(p, 2) for p in deep]
         extra = extra + deep
     progs = progs + extra
@@ -568,7 +577,7 @@ def run(tier, seed):
              "first or datagram first); plus 49+ (label, protocol) pairs over Unicode on the default schedule. Oracle at every point: "
              "<= 1 datachannel event per channel with equal id/label/protocol/ordered/reliability, no id collisions, readyState "
              "forward only with <= 1 open/close event, bufferedAmount >= 0 and equal to the queued bytes, bufferedamountlow exactly at "
-             "downward crossings; at the healed terminal point: closed on both ends after close(), freed ids reusable (new negotiated "
+             "downward crossings (and the amount read inside its handler is at or below the threshold); at the healed terminal point: closed on both ends after close(), freed ids reusable (new negotiated "
              "pair carries 3 messages each way in order although its first datagram is lost), all channels closed when the "
              "association ended, bufferedAmount 0" % (2 if tier == "quick" else 3),
         assumptions=["DTLS stand-in; transport send never suspends; deviation bound k per program",
